@@ -712,9 +712,12 @@ func (i *Lifecycler) initRing(ctx context.Context) error {
 
 		instanceDesc, ok := ringDesc.Ingesters[i.ID]
 		if !ok {
-			// This function runs again if the CAS has to be retried: forget the state taken over from a ring
-			// entry seen by an earlier attempt, if that entry has been removed in the meantime.
+			// This function runs again if the CAS has to be retried: forget the state and the tokens taken over
+			// from a ring entry seen by an earlier attempt, if that entry has been removed in the meantime.
 			i.setState(PENDING)
+			i.stateMtx.Lock()
+			i.tokens = nil
+			i.stateMtx.Unlock()
 
 			now := time.Now()
 			// The instance doesn't exist in the ring, so it's safe to set the registered timestamp as of now.
